@@ -6,7 +6,7 @@ from fractions import Fraction
 from common import Str, sx
 
 ID = 'C08'
-LEAN_MODULES = ['Cellml.Props.C08', 'Cellml.Tie.ModelState']
+LEAN_MODULES = ['Cellml.Props.C08', 'Cellml.Tie.ModelState', 'Cellml.Props.C08Gen']
 N = {'quick': 192, 'thorough': 2600}
 RULE = ('histories of API calls on a Model built through the public API over a pool of 6 variable slots (two share a '
         'name, two share a cmeta id, one cmeta id equals another variable\'s name, the model id equals a name) and 10 '
